@@ -133,3 +133,51 @@ def restate_sampler_is_callers(ctx):
     sel = ("ok-payload-built-here", "ok-payload-floor", "signature-is-parameter", "table-moved-unmodified")
     run_restated(ctx, [("C05", {"C05-b": "the sampler returned by build_sampler is assembled in that call from its own table and the caller's loop signature"})],
                  keep=lambda rule, construct: construct in sel)
+
+
+class _Without:
+    """context proxy that drops the obligations with the given construct names"""
+    def __init__(self, real, drop):
+        object.__setattr__(self, "_real", real)
+        object.__setattr__(self, "_drop", tuple(drop))
+
+    def __getattr__(self, k):
+        return getattr(self._real, k)
+
+    def __setattr__(self, k, v):
+        setattr(self._real, k, v)
+
+    def ob(self, rule, desc, ok, fn="?", construct=None, where=None, detail=None):
+        if construct in self._drop:
+            return ok
+        return self._real.ob(rule, desc, ok, fn, construct, where, detail)
+
+
+def restate_loops_if_kernels_take_them(ctx, RID, kernels, what):
+    """Conditional restatement: where the sampling routine hands one of the given kernels (L matrix, u vectors, …) an argument that is
+    rooted at a stored `num_loops` field, the kernel's extent is the table's loop count — then, and only then, that count being the
+    graph's loop number (C04-c / C03-f) is a necessary condition of this property too."""
+    from ..vals import Vals
+    from ..roles import RoleLost
+    from .kernels import sample_world, graph_dod_clause, restated_clause, run_c03_loops, Undecided
+    try:
+        sm = ctx.roles.sample()
+        w = sample_world(ctx)
+        targets = {w.roles[k].path: k for k in kernels if k in w.roles}
+    except (RoleLost, Undecided, KeyError) as e:
+        return ctx.note("%s: conditional loop-count clause skipped — %s; the owning rule reports it" % (RID, e))
+    v = Vals(sm)
+    hits = []
+    for _bi, t, cb in ctx.roles.local_callees(sm):
+        if cb.path not in targets:
+            continue
+        for ai, a in enumerate(t["args"]):
+            if a["k"] in ("copy", "move") and "num_loops" in [p_ for p_ in v.root(a).path if isinstance(p_, str)]:
+                hits.append("%s argument %d" % (targets[cb.path], ai))
+    if not hits:
+        return ctx.note("%s: no kernel of %s takes the stored loop count; its extent comes from the signature" % (RID, what))
+    ctx.rule(RID, "%s is sized by the table's stored loop count (%s): that count is the loop-number routine's value on all edges "
+                  "(sum over components, Euler per component)" % (what, ", ".join(hits)))
+    px = _Without(ctx, ("dod-formula",))     # the degree of divergence is not this property's business
+    restated_clause(px, RID, "preprocessing::TropicalGraph::from_graph", "graph-loops", lambda: graph_dod_clause(px, RID))
+    run_c03_loops(ctx, RID, soft=True)
